@@ -20,6 +20,9 @@ type Clock struct {
 	// OnStop, when set, runs at the start of every Stop call, before the clock's own lock is taken: the concurrent
 	// families park a caller there (i.e. in the middle of the store's re-arm sequence).
 	OnStop func()
+	// OnNow, when set, runs at the start of every Now call (before the clock's lock): the repo family cancels the
+	// context of the call in flight there ("the context ends while the operation is running").
+	OnNow func()
 }
 
 func New(now time.Time) *Clock {
@@ -27,6 +30,9 @@ func New(now time.Time) *Clock {
 }
 
 func (c *Clock) Now() time.Time {
+	if f := c.OnNow; f != nil {
+		f()
+	}
 	c.mu.Lock()
 	defer c.mu.Unlock()
 	return c.now
